@@ -104,3 +104,16 @@ Print Assumptions C01_code_control_dtc_setting_request.
 Theorem C01_code_clear_dtc_request : forall cfg g m, std cfg = 2020 -> fn_clear_dtc_request g m = payload_of (cdi_make cfg g m).
 Proof. exact tie_clear_dtc_request. Qed.
 Print Assumptions C01_code_clear_dtc_request.
+
+(* ---- the code is the model: read_data_by_identifier with SYMBOLIC identifiers against a configured table (Gen/Fn_Did.v) ---- *)
+From UDS Require Import Gen.Fn_Did Model.Svc_Did Proofs.Tie_did.
+Theorem C01_code_rdbi_request_1 : forall cfg d1, dids cfg = table -> fn_rdbi_request_1 d1 = payload_of (rdbi_make cfg true [d1]).
+Proof. exact tie_rdbi_request_1. Qed.
+Print Assumptions C01_code_rdbi_request_1.
+Theorem C01_code_rdbi_request_2 : forall cfg d1 d2, dids cfg = table -> fn_rdbi_request_2 d1 d2 = payload_of (rdbi_make cfg true [d1; d2]).
+Proof. exact tie_rdbi_request_2. Qed.
+Print Assumptions C01_code_rdbi_request_2.
+Theorem C01_code_rdbi_request_2_default : forall cfg d1 d2, dids cfg = table_default ->
+  fn_rdbi_request_2_default d1 d2 = payload_of (rdbi_make cfg true [d1; d2]).
+Proof. exact tie_rdbi_request_2_default. Qed.
+Print Assumptions C01_code_rdbi_request_2_default.
